@@ -147,7 +147,12 @@ type probeWriter struct {
 	value   []byte
 }
 
-func (p *probeWriter) Get(k stoabs.Key) ([]byte, error)          { return nil, stoabs.ErrKeyNotFound }
+// a book-keeping write that first looks whether the job still exists (read and put in one WriteShelf transaction, X11
+// repair) must reach its Put in the probe, too: the probe answers "exists" with an empty job
+func (p *probeWriter) Get(k stoabs.Key) ([]byte, error) {
+	p.key = hex.EncodeToString(k.Bytes())
+	return []byte("{}"), nil
+}
 func (p *probeWriter) Iterate(stoabs.CallerFn, stoabs.Key) error { return nil }
 func (p *probeWriter) Put(k stoabs.Key, v []byte) error {
 	p.key, p.op, p.value = hex.EncodeToString(k.Bytes()), "put", v
